@@ -1,5 +1,6 @@
 // C02 — (a) self-check of the torsion library against closed forms, (b) the largest admissible prime 46337,
-//        (c) refused characteristics: no memory error / UB while refusing.
+//        (c) refused characteristics: no memory error / UB while refusing,
+//        (d) multi-field prime ranges that are wide, start below 2, contain only large primes, or end at INT_MAX.
 #include "c02_simplicial.h"
 using namespace c02;
 
@@ -56,6 +57,48 @@ static void refused(vh::Case& c) {
   c.nontrivial((uint64_t)(unsigned)x + 17);
 }
 
+// Wide / extreme multi-field ranges on small complexes (one oracle reduction per prime of the range).  The initialisation of the
+// coefficient class is first run alone in a forked copy of the process under a CPU budget: "init never returns" is then ONE
+// classified violation instead of a watchdog hang of the shard.
+static void mf_ranges(vh::Case& c) {
+  typedef Gudhi::Simplex_tree<> St;
+  vh::Rng& r = c.rng;
+  static const std::vector<std::pair<int, int>> wide = {
+      {2, 100}, {46337, 46349}, {65521, 65537}, {0, 5}, {90, 100}, {1, 3}, {2, 47}, {2147483587, 2147483646},
+      {2147483629, INT_MAX}, {INT_MAX, INT_MAX}};
+  const std::pair<int, int> rg = wide[c.k % wide.size()];
+  const bool huge = rg.second > 1000000;
+  FModel M = make_model(r, r.chance(2, 3) ? "torsion" : "random", false, huge ? 120 : 300);
+  c.log(show_model(M));
+  const std::string rcls = rg.second == INT_MAX ? "range_end=INT_MAX" : huge ? "range=just_below_INT_MAX" : rg.first < 2 ? "range_start<2" :
+                           rg.first >= 46337 ? "range=above_46337" : rg.second - rg.first > 40 ? "range=wide" : "range=narrow";
+  const std::string sig0 = "cx=st_default,src=" + M.src + "," + rcls;
+  c.log("Multi_field::init(" + vh::str(rg.first) + "," + vh::str(rg.second) + ") alone, in a forked copy with a CPU budget of 1 s");
+  c.count("guard.multi_field_init");
+  if (rg.second == INT_MAX) c.count("guard.multi_field_init.range_end_INT_MAX");
+  Guarded gd = guarded([&] { Multi_field mf; mf.init(rg.first, rg.second); }, 1000);
+  if (gd.kind == Guarded::timeout) {
+    c.violation("multi.init_terminates", rcls, "Multi_field::init(" + vh::str(rg.first) + "," + vh::str(rg.second) + ") used more than 1 s of CPU (" + vh::str(primes_in(rg.first, rg.second).size()) + " primes in the range)");
+    return;
+  }
+  if (gd.kind == Guarded::died) c.count("guard.child_died");   // the same call is made below in this process: a crash is attributed there
+  St st; build_tree(r, M, st);
+  Exposure E; std::vector<Simplex> order;
+  if (!expose_tree(c, st, M, E, order, sig0)) return;
+  bool nontriv = false;
+  for (int i = 0; i < 2; ++i) {
+    Tuple t = random_tuple(r, true, M.distinct_values, M.sx.size());
+    t.pmin = rg.first; t.pmax = rg.second;
+    TupleInfo info;
+    if (!run_tuple(c, st, E, t, sig0, info)) return;
+    nontriv |= info.finite_pos_dim1;
+    c.count("tuple.mf_range." + rcls);
+  }
+  c.count("primes_in_wide_ranges", primes_in(rg.first, rg.second).size());
+  if (nontriv) c.nontrivial(vh::hash_str(vh::G().history));
+}
+
+VH_CONFIG("mf_ranges", mf_ranges);
 VH_CONFIG("lib_selfcheck", lib_selfcheck);
 VH_CONFIG("bigprime", bigprime);
 VH_CONFIG("refused", refused);
